@@ -8,6 +8,10 @@ VERIF = X.VERIF
 EVID = os.path.join(VERIF, 'evidence')
 REPLAY = os.path.join(VERIF, 'replays')
 
+def D_HOSTILE():
+    from corpus import decls
+    return decls.HOSTILE
+
 TRUSTED_BASE = [
     'rustc (nightly) type checker, MIR builder, resolver and const-evaluator; factdump only serialises their output',
     'core summary table: slice::iter, IntoIterator::into_iter (array, slice ref, identity on iterators), Iterator::{next,find,map,enumerate,zip,copied}, DoubleEndedIterator::next_back',
@@ -18,14 +22,26 @@ TRUSTED_BASE = [
 ]
 
 # ------------------------------------------------------------------ stages
-def stage_inst(tier, seed):
-    """witness workspace of derive instances -> fact files"""
+def hostile_subset(insts):
+    out = []
+    k = 0
+    for x in insts:
+        if x['kind'] in ('single', 'matrix', 'steer') or (x['kind'] in ('full', 'params') and x['decl']['n'] <= 50 and (k % 3 == 0)):
+            out.append(x)
+        k += 1
+    return out
+
+def stage_inst(tier, seed, hostile=False):
+    """witness workspace of derive instances -> fact files.  hostile=True: the same instances (a subset) re-emitted in
+    #![no_std] crates whose modules define items, modules and macros named like prelude / core items (C16)"""
     insts = I.build(tier, seed)
-    st = X.Stage('inst-%s-%d-%s' % (tier, seed, hashlib.sha256(json.dumps(insts, sort_keys=True).encode()).hexdigest()[:12]))
+    if hostile:
+        insts = hostile_subset(insts)
+    st = X.Stage('%s-%s-%d-%s' % ('hostile' if hostile else 'inst', tier, seed, hashlib.sha256(json.dumps([insts, D_HOSTILE() if hostile else 0], sort_keys=True).encode()).hexdigest()[:12]))
     def build(out):
         ws = X.scratch_dir('inst')
         try:
-            I.write_workspace(ws, insts, repo=X.REPO)
+            I.write_workspace(ws, insts, repo=X.REPO, crate_prefix='h' if hostile else 's', hostile=hostile)
             rc, err, diags = X.run_driver(ws, os.path.join(out, 'facts'))
             errors = []
             for d in diags:
